@@ -14,6 +14,7 @@ import NV.C04.LemmasStack
 import NV.C04.MapBook
 import NV.C04.LemmasSave
 import NV.C04.LemmasLoop
+import NV.C04.Refill
 
 namespace NV.C04
 
@@ -330,6 +331,39 @@ theorem bridge_backwardOps :
     backwardOps = modelBackwardOps ∧ backwardOpsLooping = [] ∧ tickBeforeDispatch = true ∧ evalLoopGotos = 0 ∧
     localCallOps = ["F_CALL_FUNCTION_BY_ADDRESS", "F_CALL_INHERITED"] ∧ fetchCharge = 1 ∧ callbackCharge = 1 :=
   ⟨rfl, rfl, rfl, rfl, rfl, fetchCharge_one, callbackCharge_one⟩
+
+/-- **regex_charge_bounded** (time of one regexp match): whatever the pattern and the string need (`steps` node visits, exponential
+    for backtracking patterns), regexec () makes at most `eval_cost * REGEXP_STEPS_PER_TICK` of them, never gives the evaluation
+    more ticks than it had, leaves at least one, and when the visits needed reach the budget exactly one - the next
+    instruction raises the error. -/
+theorem regex_charge_bounded (cost : Int) (steps : Nat) (h : 0 < cost) :
+    1 ≤ (regexCharge cost steps).1 ∧ (regexCharge cost steps).1 ≤ cost ∧
+    ((regexCharge cost steps).2 : Int) ≤ cost * regexpStepsPerTick ∧ (regexCharge cost steps).2 ≤ steps ∧
+    (1 < cost → (cost * regexpStepsPerTick).toNat ≤ steps → (regexCharge cost steps).1 = 1) := by
+  unfold regexCharge regexpStepsPerTick
+  simp only
+  by_cases hc : cost > 1
+  · simp only [hc, if_true]
+    refine ⟨?_, ?_, ?_, ?_, ?_⟩
+    · split <;> omega
+    · split <;> omega
+    · omega
+    · omega
+    · intro _ hs
+      rw [if_pos]
+      omega
+  · simp only [hc, if_false]
+    refine ⟨by omega, by omega, by omega, by omega, ?_⟩
+    intro h1
+    first | exact h1.elim | omega
+
+example : regexCharge 20000 (rxLower 60) = (1, 2000000) ∧ rxExpires 60 20000 = some true ∧ rxExpires 12 20000 = some false ∧
+    (regexCharge 20000 5000).1 = 19950 := by decide
+
+/-- **bridge_refills**: the statements of the current source that write eval_cost or the configured budget are exactly the
+    ones the rule table of Refill.lean justifies (file, function and statement), and the table is closed: a refill on expiry
+    stands with its tick test, an assignment of the budget with its clamp -/
+theorem bridge_refills : evalCostWrites = refillRules.map (·.site) ∧ refillTableOk = true := ⟨rfl, by decide⟩
 
 /-- the constants of the value walks and of compose_mapping's counter -/
 theorem bridge_saveWalk : maxSaveDepth = 25 ∧ saveBoxOverhead = 5 ∧ composeDeletedBits = 32 ∧ restoreTopNesting = 2 := by decide
